@@ -440,12 +440,14 @@ def extract_docstring_linenum(node: Str) -> int:
         lineno -= doc.count('\n')
 
     # Leading blank lines are stripped by cleandoc(), so we must
-    # return the line number of the first non-blank line.
-    for ch in doc:
-        if ch == '\n':
-            lineno += 1
-        elif not ch.isspace():
+    # return the line number of the first line it keeps: that is the first line
+    # that is not empty once the common indentation is removed.
+    lines = doc.expandtabs().split('\n')
+    margin = min((len(l) - len(l.lstrip()) for l in lines[1:] if l.lstrip()), default=0)
+    for i, line in enumerate(lines[:-1]):
+        if (line.lstrip() if i == 0 else line[margin:]):
             break
+        lineno += 1
     
     return lineno
 
